@@ -29,7 +29,7 @@ COMPONENTS = dict(real=["hio.base.hier.durqing.Durq", "hio.base.hier.dusqing.Dus
 ASSUMPTIONS = ["crash = process death; the page cache survives, LMDB's own fsync discipline is trusted"]
 PROBES = ["store_and_containers_in_one_update", "reopen_nonempty", "crash_inside_operation", "dusq_remove", "dusq_duplicate_push", "extend_with_duplicates", "pull_empty", "clear_nonempty"]
 BOUNDS = dict(quick=dict(ops=40), thorough=dict(ops=100))
-TIERS = dict(quick=dict(cases=1200, wall=50.0), thorough=dict(cases=60000, wall=420.0))
+TIERS = dict(quick=dict(cases=2400, wall=60.0), thorough=dict(cases=60000, wall=420.0))
 SIM_TIME_UNIT = "operations"
 
 POOL = [("Bag", 0), ("Bag", 1), ("Bag", 2), ("IceBag", 0), ("IceBag", 1), ("IceBag", 2)]
